@@ -450,6 +450,7 @@ fn minimise_c11(rf: &ReplayFile) -> ReplayFile {
 }
 
 pub fn run(a: &Args) -> i32 {
+    c18::NO_SOAK.store(true, std::sync::atomic::Ordering::Relaxed);
     let path = a.pos.get(1).cloned().unwrap_or_else(|| die("minimise needs a file"));
     let out = a.str("out", &path);
     let text = std::fs::read_to_string(&path).unwrap_or_else(|e| die(&format!("{path}: {e}")));
